@@ -212,6 +212,49 @@ def seq_rules(facts, rep):
     return ok
 
 
+def extra_tolerance_rules(facts, rep, rule="C10-EXTRA"):
+    """Both parsers treat a failing extra-field parse the same way: an I/O error (a truncated or padded extra area, as zipalign
+    leaves behind) is tolerated and the record is still delivered; any other error is returned.  If only one of them gave up on
+    such a record the two readers would disagree about the archive."""
+    from engine.query import enum_variants
+    ok = True
+    zv = {n: k for k, n in enum_variants(facts, "result::ZipError").items()}
+    io = zv.get("Io")
+    A_RES = r"^discr\(read::parse_extra_field\("
+    A_ERR = r"^discr\(err\(read::parse_extra_field\("
+    for pat in (r"^read::read_zipfile_from_stream$", r"^read::central_header_to_zip_file_inner$"):
+        f = facts.one(pat)
+        if not calls_matching(f, r"^read::parse_extra_field$"):
+            raise AnchorLost("parse_extra_field call in %s" % f.path)
+        ps = paths(f)
+        tolerated = propagated = 0
+        bad = []
+        for p in ps:
+            ds = [(a, v) for a, v in p["decisions"] if a != "#iter"]
+            idx = [i for i, (a, v) in enumerate(ds) if re.search(A_ERR, a)]
+            if decided(p, A_RES) != 1 or not idx:
+                continue
+            v = ds[idx[0]][1]
+            o = outcome(p)
+            if v == io:
+                # goes on: something is decided after it, or the path ends in success
+                if idx[0] + 1 < len(ds) or o[0] == "Ok":
+                    tolerated += 1
+                else:
+                    bad.append("Io error ends the parse")
+            else:
+                if o[0] in ("Err", "ErrProp") and idx[0] + 1 == len(ds):
+                    propagated += 1
+                else:
+                    bad.append("a non-I/O extra-field error is swallowed")
+        good = tolerated >= 1 and propagated >= 1 and not bad and io is not None
+        ok &= rep.check(good, rule, "extra-error-policy@%s" % f.path.split("::")[-1], where(f, f.span),
+                        "parse_extra_field: Err(Io) tolerated, other errors returned",
+                        "%s no longer tolerates an I/O error of the extra-field parse while returning the others (%s; tolerated paths=%d, returning paths=%d): "
+                        "the streaming and the seekable reader then disagree on archives with a padded/truncated extra area" % (f.path, "; ".join(sorted(set(bad))) or "shape changed", tolerated, propagated))
+    return ok
+
+
 def run(ctx, rep):
     facts = ctx.facts
     rep.configs.append("default")
@@ -226,6 +269,8 @@ def run(ctx, rep):
     refuse_rules(facts, rep)
     drain_rules(facts, rep)
     seq_rules(facts, rep)
+    extra_tolerance_rules(facts, rep)
+    rep.floor("C10-EXTRA", 2)
     rep.floor("C10-CODEC", 30)
     rep.floor("C10-DRAIN", 5)
     rep.floor("C10-SEQ", 4)
